@@ -280,8 +280,9 @@ def parse_verdicts(out):
 
 def run_shard(path):
     t0 = time.time()
-    rc, out = run(["coqc", "-noglob", "-Q", COQ, "Okv", "-o", path + "o", path], timeout=1800,
-                  cwd=os.path.dirname(path))
+    # vm_compute over tens of thousands of cases recurses deeply (map / flat_map): lift the stack limit
+    rc, out = run(["sh", "-c", "ulimit -s unlimited 2>/dev/null || ulimit -s 1000000 2>/dev/null; exec coqc -noglob -Q \"$1\" Okv -o \"$2\"o \"$2\"", "sh", COQ, path],
+                  timeout=1800, cwd=os.path.dirname(path))
     if rc != 0:
         return path, None, out[-3000:], time.time() - t0
     v = parse_verdicts(out)
@@ -294,7 +295,8 @@ def correspondence(prop, cfg, tier, seed, tag="main", extra=None):
     shutil.rmtree(out_dir, ignore_errors=True)
     os.makedirs(out_dir)
     cmd = [OKV, prop.lower(), "--seed", str(seed), "--tier", tier, "--out", out_dir,
-           "--corpus", os.path.join(ROOT, "corpus", prop), "--shards", "16"] + (extra or [])
+           "--corpus", os.path.join(ROOT, "corpus", prop),
+           "--shards", str(cfg.get("shards_" + tier, 16))] + (extra or [])
     rc, out = run(cmd, timeout=cfg.get("harness_timeout", 1500), cwd=BUILD,
                   env={"OKV_OKANE_BIN": os.path.join(OKANE_TARGET, "release", "okane"),
                        "OKV_SCRATCH": os.path.join(BUILD, "scratch"), "OKV_REPO": REPO})
